@@ -418,6 +418,7 @@ Der ==
 WSum ==
   \E i, j, k \in DOMAIN store, ws \in SumSel :
     LET x == store[i]  y == store[j]  z == store[k]  tr == WeightTriples[ws] IN
+    /\ ~(SumMode /\ HasSum(store))
     /\ i # j /\ i # k /\ j # k
     /\ x.kind = "bf" /\ y.kind = "bf" /\ z.kind = "bf"
     /\ x.args = y.args /\ y.args = z.args
@@ -436,12 +437,10 @@ Repl ==
                   [x.deg EXCEPT ![r] = @ + x.deg[q], ![q] = 0], x.dif, x.hasact, x.idl, x.isform)
              EXCEPT !.q = q, !.dir = r, !.hasform = x.hasform, !.isco = x.isco])
 
-NextAll == AddSub("add") \/ AddSub("sub") \/ Neg \/ Scale \/ Act \/ Adj \/ Zero \/ Der \/ WSum \/ Repl
-\* SumMode: Viable (in Push) admits only CompOps before the sum and counts the operations after it
-NextSum == IF HasSum(store)
-           THEN AddSub("add") \/ AddSub("sub") \/ Neg \/ Scale \/ Act \/ Adj \/ Zero \/ Der \/ Repl
-           ELSE NextAll
-Next == IF SumMode THEN NextSum ELSE NextAll
+\* SumMode: Viable (in Push) admits only CompOps before the sum, only PostOps after it, and counts
+\* the operations after it; WSum is taken once.  (A plain disjunction: TLC -simulate draws one of
+\* the disjuncts, then one of its successors.)
+Next == AddSub("add") \/ AddSub("sub") \/ Neg \/ Scale \/ Act \/ Adj \/ Zero \/ Der \/ WSum \/ Repl
 Spec == Init /\ [][Next]_vars
 
 -----------------------------------------------------------------------------
@@ -452,6 +451,30 @@ RankOK ==
   /\ store[n].kind = "bf" => StrictInc(store[n].args)
   /\ store[n].kind = "coef" => Len(store[n].args) = 1
   /\ Len(IdxSeq(store[n].args)) = Cardinality(Idx(store[n].args))
+
+(* The derivative of a weighted sum, component by component (the distribution ufl performs in
+   formoperators.derivative; expand_derivatives then eliminates the components that vanish):
+   node i differentiates a "wsum" node; DerOfComp(i, k) is the same derivative applied to the
+   component k alone. *)
+SumDer(i) == store[i].op = "der" /\ store[store[i].a].op = "wsum"
+DerOfComp(i, k) == T(Append(store, [store[i] EXCEPT !.a = k]), Len(store) + 1, EnvBase)
+TDefined(t) == \A s \in DOMAIN t : QDef(t[s])
+\* which of the three component derivatives are zero (<<>> for any other node)
+Vanish(i) ==
+  IF SumDer(i)
+  THEN LET sm == store[store[i].a]
+           cs == <<sm.a, sm.b, sm.c>>
+       IN [m \in 1..3 |-> IF DerOfComp(i, cs[m]) = TZero(store[i].args) THEN 1 ELSE 0]
+  ELSE <<>>
+\* linearity of the difference quotient: D(w1 A + w2 B + w3 C) = w1 DA + w2 DB + w3 DC
+DerOfSumLinear ==
+  LET n == Len(store) IN
+  SumDer(n) =>
+    LET sm == store[store[n].a]
+        d1 == DerOfComp(n, sm.a)  d2 == DerOfComp(n, sm.b)  d3 == DerOfComp(n, sm.c)
+        rhs == TAdd(TAdd(TScale(SumWeightSeq[sm.w], d1), TScale(SumWeightSeq[sm.w2], d2)),
+                    TScale(SumWeightSeq[sm.w3], d3))
+    IN (TDefined(tv[n]) /\ TDefined(rhs)) => tv[n] = rhs
 
 (* ALGEBRAIC LAWS of the model (run "laws"): every instance that involves the newest node.
    Val(i) is the value [args, t] of node i of the store. *)
@@ -524,12 +547,14 @@ DerivativeSanity ==
    [ops, nodes]
      ops    = [[opcode, a, b, w, q, dir, z, c, w2, w3], ...]   operands a, b, c: index into the
               store (leaves first); wsum: weights w, w2, w3 index SumWeightSeq; repl: q -> dir
-     nodes  = [[kind, args, may, must, undefined, tensor], ...]   one prediction per operation
+     nodes  = [[kind, args, may, must, undefined, tensor, vanish], ...]   one prediction per operation
+              vanish = for the derivative of a three-component sum: [z1, z2, z3], zk = 1 when the
+              derivative of component k is zero; [] for any other node
      opcode = 1 add 2 sub 3 neg 4 scale 5 act 6 adj 7 zero 8 der 9 wsum 10 repl
      args   = [[n, sp, du], ...]      tensor = [[num, den], ...] in row-major order *)
 EncOp(nd) == <<OpCode(nd.op), nd.a, nd.b, nd.w, nd.q, nd.dir, nd.z, nd.c, nd.w2, nd.w3>>
 EncArgs(ar) == [i \in DOMAIN ar |-> <<ar[i].n, ar[i].sp, IF ar[i].du THEN 1 ELSE 0>>]
-\* the prediction for node i: [kind, args, may, must, undefined, tensor]
+\* the prediction for node i: [kind, args, may, must, undefined, tensor, vanish]
 \*   must = the coefficients on which the tensor demonstrably depends (it changes when the value
 \*   of the coefficient is perturbed); may = the coefficients occurring in the construction
 EncNode(i) ==
@@ -538,7 +563,7 @@ EncNode(i) ==
       ix  == IdxSeq(nd.args)
       und == (\E s \in DOMAIN t0 : ~QDef(t0[s])) \/ (\E q \in nd.may : \E s \in DOMAIN t0 : ~QDef(tp[i][q][s]))
   IN <<nd.kind, EncArgs(nd.args), SetToSortSeq(nd.may, <),
-       SetToSortSeq({q \in nd.may : tp[i][q] # t0}, <), und, [j \in DOMAIN ix |-> t0[ix[j]]]>>
+       SetToSortSeq({q \in nd.may : tp[i][q] # t0}, <), und, [j \in DOMAIN ix |-> t0[ix[j]]], Vanish(i)>>
 DumpRec == <<[k \in 1..NOps(store) |-> EncOp(store[NL + k])], [k \in 1..NOps(store) |-> EncNode(NL + k)]>>
 Dump == (DumpOn /\ NOps(store) >= 1 /\ Cardinality(Roots(store)) = 1) => PrintT(ToJson(DumpRec))
 
